@@ -26,6 +26,7 @@ pattern's own variables are ever written.
 import KotoVerif.Model.Match
 import KotoVerif.Model.Unpack
 import KotoVerif.Lemmas.C03
+import KotoVerif.Lemmas.C03Alt
 
 namespace KotoVerif.C03
 open KotoVerif KotoVerif.Match KotoVerif.Unpack
@@ -513,6 +514,217 @@ theorem arm_frame (F : FloatOps) (C : Cfg) : ∀ (alts : List Alt) (s : Src) (ρ
     | done ρ1 => rw [hr] at h hf; simp at h; subst h; exact hf
     | fail ρ1 => rw [hr] at h hf; exact hrest ρ1 hf h
     | err e => rw [hr] at h; simp at h
+
+/-! ## every alternative of an arm, at full strength (the repaired code)
+
+`nestedLast` = /repo 075f64d (F-C03-3), `Safe` = `sizeNullJumps` (7886e40, F-C03-1) ∧ `accessFalls`
+(1750a1b, F-C03-4).  The `_partial` statements above remain true for every `Cfg` (they are what
+holds on the tree the findings were recorded on); for the current code the side conditions are
+gone. -/
+
+/-- **any** alternative other than the last one, **any** well-formed pattern (parenthesised
+patterns at every position, any nesting): the jump to `match_end` is taken exactly when the
+declarative definition matches, with exactly its bindings -/
+theorem nonlast_alt_spec (F : FloatOps) (C : Cfg) (p : Pat) (v : Val) (ρ ρ' : Env)
+    (hC : C.nestedLast = true) (hw : wf p = true) (hv : plain v = true) :
+    mPat F C false p true (.direct (.tmp v)) ρ = .done ρ' ↔ ∃ β, Decl F p v β ∧ ρ' = ρ.apply β := by
+  have sp := specN_pat_full (C := C) F hC p hw (.direct (.tmp v)) ρ v (Or.inl rfl) hv
+  exact ⟨sp.2 ρ', fun ⟨β, hd, h⟩ => h ▸ sp.1 β hd⟩
+
+/-- pattern code never raises on plain data: "no match" always means "try the next arm" -/
+theorem pattern_never_raises (F : FloatOps) (C : Cfg) (p : Pat) (v : Val) (ρ : Env) (la il : Bool) (e : Err)
+    (hS : Safe C) (hw : wf p = true) (hv : plain v = true) :
+    mPat F C la p il (.direct (.tmp v)) ρ ≠ .err e :=
+  noErr_pat F hS p hw la il (.direct (.tmp v)) ρ v e (Or.inl rfl) hv
+
+/-- `no_match_falls_through_partial` without its hypothesis: the last alternative fails (jumps to
+the end of the arm) exactly when the declarative definition has no match -/
+theorem no_match_falls_through (F : FloatOps) (C : Cfg) (p : Pat) (v : Val) (ρ : Env) (il : Bool)
+    (hS : Safe C) (hw : wf p = true) (hv : plain v = true) :
+    (∃ ρ', mPat F C true p il (.direct (.tmp v)) ρ = .fail ρ') ↔ ¬ ∃ β, Decl F p v β :=
+  no_match_falls_through_partial F C p v ρ il hw hv
+    (fun e => pattern_never_raises F C p v ρ true il e hS hw hv)
+
+/-- what one alternative does, in any position (`la` = it is the last one): either it matches
+declaratively and signals success (`ok` when last, the `match_end` jump otherwise) with exactly its
+bindings, or it does not match and control reaches the next alternative / the end of the arm, having
+touched at most its own variables -/
+theorem alt_outcome (F : FloatOps) (C : Cfg) (la : Bool) (a : Alt) (v : Val) (ρ : Env)
+    (hC : C.nestedLast = true) (hS : Safe C) (hw : WfAlt a v) (hv : plain v = true) :
+    (∃ β, DeclAlt F a v β ∧ mAlt F C la a (.tmp v) ρ = (if la then R.ok (ρ.apply β) else R.done (ρ.apply β))) ∨
+    ((¬ ∃ β, DeclAlt F a v β) ∧ ∃ ρ₁, Agree (altVars a) ρ ρ₁ ∧
+      (mAlt F C la a (.tmp v) ρ = .fail ρ₁ ∨ (la = false ∧ mAlt F C la a (.tmp v) ρ = .ok ρ₁))) := by
+  by_cases hd : ∃ β, DeclAlt F a v β
+  · left
+    obtain ⟨β, hβ⟩ := hd
+    refine ⟨β, hβ, ?_⟩
+    cases la with
+    | true => simpa using (alt_last_spec F a v ρ (ρ.apply β) hw hv).2 ⟨β, hβ, rfl⟩
+    | false => simpa using (alt_nonlast_spec F hC a v ρ (ρ.apply β) hw hv).2 ⟨β, hβ, rfl⟩
+  · right
+    refine ⟨hd, ?_⟩
+    have hf := alt_frame F C la a (.tmp v) ρ
+    cases hr : mAlt F C la a (.tmp v) ρ with
+    | ok ρ₁ =>
+      rw [hr] at hf
+      cases la with
+      | true =>
+        obtain ⟨β, hβ, _⟩ := (alt_last_spec F a v ρ ρ₁ hw hv).1 hr
+        exact absurd ⟨β, hβ⟩ hd
+      | false => exact ⟨ρ₁, hf, Or.inr ⟨rfl, rfl⟩⟩
+    | done ρ₁ =>
+      cases la with
+      | true => exact absurd hr (alt_last_not_done F a v ρ ρ₁ hw hv)
+      | false =>
+        obtain ⟨β, hβ, _⟩ := (alt_nonlast_spec F hC a v ρ ρ₁ hw hv).1 hr
+        exact absurd ⟨β, hβ⟩ hd
+    | fail ρ₁ => rw [hr] at hf; exact ⟨ρ₁, hf, Or.inl rfl⟩
+    | err e => exact absurd hr (alt_noerr F hS la a v ρ e hw hv)
+
+theorem agree_step {b : Alt} {bs : List Alt} {ρ ρ₁ ρk : Env} (h1 : Agree (altVars b) ρ ρ₁)
+    (h2 : Agree (altsVars bs) ρ₁ ρk) : Agree (altsVars (b :: bs)) ρ ρk :=
+  Agree.trans (h1.mono (by intro x hx; simp [altsVars, hx])) (h2.mono (by intro x hx; simp [altsVars, hx]))
+
+/-- **the first alternative that matches wins, wherever it stands**: if no alternative before `a`
+matches and `a` matches with bindings `β`, the arm's patterns succeed with `β` written on top of
+registers `ρk` that differ from the initial ones at most on variables of the earlier, failed
+alternatives (F-C03-11) -/
+theorem first_alt_wins (F : FloatOps) (C : Cfg) (hC : C.nestedLast = true) (hS : Safe C) :
+    ∀ (before : List Alt) (a : Alt) (after : List Alt) (v : Val) (ρ : Env) (β : Writes),
+    (∀ x, x ∈ before ++ a :: after → WfAlt x v) → plain v = true →
+    (∀ b, b ∈ before → ¬ ∃ β, DeclAlt F b v β) → DeclAlt F a v β →
+    ∃ ρk, Agree (altsVars before) ρ ρk ∧
+      mAlts F C (before ++ a :: after) (.tmp v) ρ = .matched (ρk.apply β)
+  | [], a, after, v, ρ, β, hw, hv, _, hd => by
+    refine ⟨ρ, Agree.refl _ _, ?_⟩
+    have hwa : WfAlt a v := hw a (by simp)
+    cases after with
+    | nil =>
+      have := (alt_last_spec (C := C) F a v ρ (ρ.apply β) hwa hv).2 ⟨β, hd, rfl⟩
+      simp [mAlts, this]
+    | cons c cs =>
+      have := (alt_nonlast_spec (C := C) F hC a v ρ (ρ.apply β) hwa hv).2 ⟨β, hd, rfl⟩
+      simp [mAlts, this]
+  | b :: bs, a, after, v, ρ, β, hw, hv, hno, hd => by
+    have hwb : WfAlt b v := hw b (by simp)
+    obtain ⟨c, cs, hc⟩ : ∃ c cs, bs ++ a :: after = c :: cs := by
+      cases bs with
+      | nil => exact ⟨a, after, rfl⟩
+      | cons c cs => exact ⟨c, cs ++ a :: after, rfl⟩
+    have ih := fun ρ₁ => first_alt_wins F C hC hS bs a after v ρ₁ β
+      (fun x hx => hw x (by simp at hx ⊢; right; exact hx)) hv
+      (fun x hx => hno x (by simp [hx])) hd
+    rcases alt_outcome F C false b v ρ hC hS hwb hv with ⟨β', hβ', _⟩ | ⟨_, ρ₁, hag, hres⟩
+    · exact absurd ⟨β', hβ'⟩ (hno b (by simp))
+    · obtain ⟨ρk, hagk, hm⟩ := ih ρ₁
+      refine ⟨ρk, agree_step hag hagk, ?_⟩
+      rw [List.cons_append, hc] at *
+      rcases hres with h | ⟨_, h⟩ <;> simp [mAlts, h, hm]
+
+/-- conversely: when the arm's patterns succeed, the bindings are those of the **first**
+alternative that matches declaratively -/
+theorem matched_is_first_alt (F : FloatOps) (C : Cfg) (hC : C.nestedLast = true) (hS : Safe C) :
+    ∀ (alts : List Alt) (v : Val) (ρ ρ' : Env), (∀ x, x ∈ alts → WfAlt x v) → plain v = true →
+    mAlts F C alts (.tmp v) ρ = .matched ρ' →
+    ∃ before a after β ρk, alts = before ++ a :: after ∧ (∀ b, b ∈ before → ¬ ∃ β, DeclAlt F b v β) ∧
+      DeclAlt F a v β ∧ Agree (altsVars before) ρ ρk ∧ ρ' = ρk.apply β
+  | [], v, ρ, ρ', _, _, h => by simp [mAlts] at h
+  | [a], v, ρ, ρ', hw, hv, h => by
+    have hwa : WfAlt a v := hw a (by simp)
+    rcases alt_outcome F C true a v ρ hC hS hwa hv with ⟨β, hβ, hm⟩ | ⟨_, ρ₁, _, hres⟩
+    · simp [mAlts, hm] at h
+      exact ⟨[], a, [], β, ρ, rfl, by simp, hβ, Agree.refl _ _, h.symm⟩
+    · rcases hres with hm | ⟨hf, _⟩
+      · simp [mAlts, hm] at h
+      · cases hf
+  | a :: b :: rest, v, ρ, ρ', hw, hv, h => by
+    have hwa : WfAlt a v := hw a (by simp)
+    rcases alt_outcome F C false a v ρ hC hS hwa hv with ⟨β, hβ, hm⟩ | ⟨hno, ρ₁, hag, hres⟩
+    · simp [mAlts, hm] at h
+      exact ⟨[], a, b :: rest, β, ρ, rfl, by simp, hβ, Agree.refl _ _, h.symm⟩
+    · have h' : mAlts F C (b :: rest) (.tmp v) ρ₁ = .matched ρ' := by
+        rcases hres with hm | ⟨_, hm⟩ <;> simpa [mAlts, hm] using h
+      obtain ⟨before, a', after, β, ρk, heq, hnb, hd, hagk, hρ⟩ :=
+        matched_is_first_alt F C hC hS (b :: rest) v ρ₁ ρ' (fun x hx => hw x (by simp at hx ⊢; right; exact hx)) hv h'
+      refine ⟨a :: before, a', after, β, ρk, by simp [heq], ?_, hd, agree_step hag hagk, hρ⟩
+      intro x hx
+      rcases List.mem_cons.mp hx with rfl | hx'
+      · exact hno
+      · exact hnb x hx'
+
+/-- the arm's patterns fail as a whole exactly when no alternative matches -/
+theorem unmatched_iff_no_alt (F : FloatOps) (C : Cfg) (hC : C.nestedLast = true) (hS : Safe C) :
+    ∀ (alts : List Alt) (v : Val) (ρ : Env), (∀ x, x ∈ alts → WfAlt x v) → plain v = true →
+    ((∃ ρ', mAlts F C alts (.tmp v) ρ = .unmatched ρ') ↔ ∀ a, a ∈ alts → ¬ ∃ β, DeclAlt F a v β)
+  | [], v, ρ, _, _ => by simp [mAlts]
+  | [a], v, ρ, hw, hv => by
+    have hwa : WfAlt a v := hw a (by simp)
+    rcases alt_outcome F C true a v ρ hC hS hwa hv with ⟨β, hβ, hm⟩ | ⟨hno, ρ₁, _, hres⟩
+    · simp only [mAlts, hm, if_true]
+      constructor
+      · rintro ⟨ρ', h⟩; cases h
+      · intro h; exact absurd ⟨β, hβ⟩ (h a (by simp))
+    · rcases hres with hm | ⟨hf, _⟩
+      · simp only [mAlts, hm]
+        exact ⟨fun _ x hx => by simp at hx; subst hx; exact hno, fun _ => ⟨ρ₁, rfl⟩⟩
+      · cases hf
+  | a :: b :: rest, v, ρ, hw, hv => by
+    have hwa : WfAlt a v := hw a (by simp)
+    have ih := fun ρ₁ => unmatched_iff_no_alt F C hC hS (b :: rest) v ρ₁
+      (fun x hx => hw x (by simp at hx ⊢; right; exact hx)) hv
+    rcases alt_outcome F C false a v ρ hC hS hwa hv with ⟨β, hβ, hm⟩ | ⟨hno, ρ₁, _, hres⟩
+    · simp only [mAlts, hm, Bool.false_eq_true, if_false]
+      constructor
+      · rintro ⟨ρ', h⟩; cases h
+      · intro h; exact absurd ⟨β, hβ⟩ (h a (by simp))
+    · have e : mAlts F C (a :: b :: rest) (.tmp v) ρ = mAlts F C (b :: rest) (.tmp v) ρ₁ := by
+        rcases hres with hm | ⟨_, hm⟩ <;> simp [mAlts, hm]
+      rw [e, ih ρ₁]
+      constructor
+      · intro h x hx
+        rcases List.mem_cons.mp hx with rfl | hx'
+        · exact hno
+        · exact h x hx'
+      · intro h x hx; exact h x (List.mem_cons_of_mem _ hx)
+
+/-- guards: an arm (not `else`) is taken exactly on the first matching alternative's bindings
+with a true guard … -/
+theorem selects_decl (F : FloatOps) (C : Cfg) (hC : C.nestedLast = true) (hS : Safe C) (arm : Arm) (v : Val)
+    (ρ ρ' : Env) (hne : arm.alts ≠ []) (hw : ∀ x, x ∈ arm.alts → WfAlt x v) (hv : plain v = true)
+    (h : Selects F C arm (.tmp v) ρ ρ') :
+    ∃ before a after β ρk, arm.alts = before ++ a :: after ∧ (∀ b, b ∈ before → ¬ ∃ β, DeclAlt F b v β) ∧
+      DeclAlt F a v β ∧ Agree (altsVars before) ρ ρk ∧ ρ' = ρk.apply β ∧
+      ∀ g, arm.guard = some g → g ρ' = true := by
+  rcases h with ⟨he, _⟩ | ⟨_, hm, hg⟩
+  · exact absurd he hne
+  · obtain ⟨before, a, after, β, ρk, heq, hnb, hd, hag, hρ⟩ :=
+      matched_is_first_alt F C hC hS arm.alts v ρ ρ' hw hv hm
+    exact ⟨before, a, after, β, ρk, heq, hnb, hd, hag, hρ, hg⟩
+
+/-- … and passed over exactly when no alternative matches, or the first matching alternative's
+bindings make the guard false -/
+theorem skips_decl (F : FloatOps) (C : Cfg) (hC : C.nestedLast = true) (hS : Safe C) (arm : Arm) (v : Val)
+    (ρ ρ' : Env) (hw : ∀ x, x ∈ arm.alts → WfAlt x v) (hv : plain v = true)
+    (h : Skips F C arm (.tmp v) ρ ρ') :
+    (∀ a, a ∈ arm.alts → ¬ ∃ β, DeclAlt F a v β) ∨
+    (∃ before a after β ρk g, arm.alts = before ++ a :: after ∧ (∀ b, b ∈ before → ¬ ∃ β, DeclAlt F b v β) ∧
+      DeclAlt F a v β ∧ Agree (altsVars before) ρ ρk ∧ ρ' = ρk.apply β ∧ arm.guard = some g ∧ g ρ' = false) := by
+  obtain ⟨_, hm | ⟨hm, g, hg, hf⟩⟩ := h
+  · exact Or.inl ((unmatched_iff_no_alt F C hC hS arm.alts v ρ hw hv).1 ⟨ρ', hm⟩)
+  · obtain ⟨before, a, after, β, ρk, heq, hnb, hd, hag, hρ⟩ :=
+      matched_is_first_alt F C hC hS arm.alts v ρ ρ' hw hv hm
+    exact Or.inr ⟨before, a, after, β, ρk, g, heq, hnb, hd, hag, hρ, hg, hf⟩
+
+/-- an arm whose first matching alternative has a true guard (for the registers that alternative
+produces) is taken -/
+theorem arm_taken (F : FloatOps) (C : Cfg) (hC : C.nestedLast = true) (hS : Safe C) (arm : Arm)
+    (before : List Alt) (a : Alt) (after : List Alt) (v : Val) (ρ : Env) (β : Writes)
+    (heq : arm.alts = before ++ a :: after) (hw : ∀ x, x ∈ arm.alts → WfAlt x v) (hv : plain v = true)
+    (hno : ∀ b, b ∈ before → ¬ ∃ β, DeclAlt F b v β) (hd : DeclAlt F a v β)
+    (hg : ∀ ρk g, arm.guard = some g → Agree (altsVars before) ρ ρk → g (ρk.apply β) = true) :
+    ∃ ρk, Agree (altsVars before) ρ ρk ∧ Selects F C arm (.tmp v) ρ (ρk.apply β) := by
+  obtain ⟨ρk, hag, hm⟩ := first_alt_wins F C hC hS before a after v ρ β (by rw [← heq]; exact hw) hv hno hd
+  refine ⟨ρk, hag, Or.inr ⟨by rw [heq]; simp, by rw [heq]; exact hm, fun g hgs => hg ρk g hgs hag⟩⟩
 
 /-! ### concrete witnesses (replayed on the implementation by the harness) -/
 
